@@ -27,7 +27,34 @@ CLAIMS['C12'] = (
     'trusted: clang 14 front end; frozen return-convention table (checked against inferred return classes); '
     'external summaries of read/write/lseek/ftruncate; value classes {-1,<-1,0,1,>1}')
 
-FIX_COMMITS = ['b06bb6c', 'cac4df4', 'cfca702', 'e539799', '9a0c13d', '199957c']
+def _module_claims():
+    import importlib
+    for i in range(1, 21):
+        pid = 'C%02d' % i
+        if not os.path.exists(os.path.join(os.path.dirname(__file__), 'props', pid.lower() + '.py')):
+            continue
+        try:
+            mod = importlib.import_module('zcsa.props.' + pid.lower())
+        except Exception as ex:   # a broken module must not produce a manifest entry
+            print('manifest: cannot import %s: %s' % (pid, ex))
+            continue
+        c = getattr(mod, 'CLAIM', None)
+        if c:
+            CLAIMS[pid] = (c['technique'], c['text'], c['note'])
+
+
+def fix_commits():
+    """fix: commits of /repo recorded in known_findings.json (status fixed)."""
+    out = []
+    try:
+        data = json.load(open(os.path.join(VERIF, 'known_findings.json')))
+        for f in data.get('findings', []):
+            c = f.get('commit')
+            if f.get('status') == 'fixed' and c and c not in out:
+                out.append(c)
+    except (OSError, ValueError):
+        pass
+    return out
 
 # properties without a check yet / declined, with reason
 NOT_APPLICABLE = {
@@ -38,6 +65,7 @@ PENDING_REASON = ('no structural clause of this property is decided by a check y
 
 
 def build():
+    _module_claims()
     checks = []
     for pid in sorted(CLAIMS):
         tech, text, note = CLAIMS[pid]
@@ -66,7 +94,7 @@ def build():
             'enable': 'none: static analysis needs no source hooks; checks parse /repo with the real build flags '
                       '(-std=gnu11 -D_FILE_OFFSET_BITS=64 -DZCHUNK_ZSTD -DZCHUNK_OPENSSL)',
             'baseline_off_cmd': 'ninja -C /repo/_build && meson test -C /repo/_build',
-            'source_commits': FIX_COMMITS,
+            'source_commits': fix_commits(),
             'add_only': True,
         },
         'engines': [{
